@@ -90,7 +90,7 @@ def main():
             open(d + '/include/' + fn, 'w').writelines(src2)
             killed, status = None, []
             for c in checks:
-                env = dict(os.environ, SYMX_REPO=d, SYMX_REPLAY=d + '/replay', VERIF_JOBS=a.jobs)
+                env = dict(os.environ, SYMX_REPO=d, SYMX_REPLAY=d + '/replay', SYMX_BUILD=d + '/build', VERIF_JOBS=a.jobs)
                 t = time.time()
                 try:
                     r = subprocess.run(['/verif/check', c, '--tier', 'quick', '--no-evidence'], capture_output=True, text=True, env=env, timeout=1500)
